@@ -140,6 +140,10 @@ type poolOp struct {
 func c06API(r *Run) {
 	bits := 30 - r.Ch.Choose(5, "prefix") // /30 .. /26
 	cidr := fmt.Sprintf("10.99.0.0/%d", bits)
+	if r.Ch.Choose(4, "pool-written-with-host-bits") == 1 {
+		// the operator wrote the prefix with host bits set: the pool is the prefix all the same
+		cidr = fmt.Sprintf("10.99.0.%d/%d", 1+r.Ch.Choose((1<<(32-bits))-1, "host-bits"), bits)
+	}
 	size := (1 << (32 - bits)) - 2
 	pool, err := pfcpiface.NewIPPool(cidr)
 	if err != nil {
@@ -254,6 +258,10 @@ func c06PFCP(r *Run) {
 	r.Conf = DefaultBESSConf()
 	bits := 30 - r.Ch.Choose(3, "prefix")
 	cidr := fmt.Sprintf("10.60.0.0/%d", bits)
+	if r.Ch.Choose(4, "pool-written-with-host-bits") == 1 {
+		cidr = fmt.Sprintf("10.60.0.%d/%d", 1+r.Ch.Choose((1<<(32-bits))-1, "host-bits"), bits)
+		r.Probe("ue-pool-prefix-written-with-host-bits")
+	}
 	size := (1 << (32 - bits)) - 2
 	r.Conf.CPIface.UEIPPool = cidr
 	r.DrawStrategy()
